@@ -79,34 +79,63 @@ macro_rules! tree_pfu {
     ($k:ident, $s:ident, $c:ident, $i:ident) => { Some($s.rank_prefetch_unchecked($c, $i)) };
 }
 
+/// One newtype per alias, so that the `Tree` impls stay distinct types even if two aliases of the
+/// library were (by mistake) to denote the same type: the harness must keep compiling in that case.
+macro_rules! wrapper {
+    ($alias:ident) => {
+        #[derive(Clone, PartialEq, Debug, Default, serde::Serialize, serde::Deserialize)]
+        #[serde(transparent)]
+        pub struct $alias<T>(pub qwt::$alias<T>);
+        impl<T> SpaceUsage for $alias<T>
+        where
+            qwt::$alias<T>: SpaceUsage,
+        {
+            fn space_usage_byte(&self) -> usize {
+                self.0.space_usage_byte()
+            }
+        }
+    };
+}
+wrapper!(QWT256);
+wrapper!(QWT512);
+wrapper!(QWT256Pfs);
+wrapper!(QWT512Pfs);
+wrapper!(HQWT256);
+wrapper!(HQWT512);
+wrapper!(HQWT256Pfs);
+wrapper!(HQWT512Pfs);
+wrapper!(WT);
+wrapper!(HWT);
+
 macro_rules! impl_tree {
     ($alias:ident, $huff:expr, $quad:expr, $pfs:expr, $kind:ident; $($t:ty),*) => {$(
-        impl Tree for qwt::$alias<$t> {
+        impl Tree for $alias<$t> {
             type T = $t;
             const ALIAS: &'static str = stringify!($alias);
             const HUFF: bool = $huff;
             const QUAD: bool = $quad;
             const PFS: bool = $pfs;
-            fn new_(v: &mut [$t]) -> Self { Self::new(v) }
-            fn from_vec(v: Vec<$t>) -> Self { Self::from(v) }
-            fn collect_(v: Vec<$t>) -> Self { v.into_iter().collect() }
-            fn len_(&self) -> usize { self.len() }
-            fn is_empty_(&self) -> bool { self.is_empty() }
-            fn n_levels_(&self) -> usize { self.n_levels() }
-            fn sigma_(&self) -> Option<Option<$t>> { tree_sigma!($kind, self) }
-            fn get_(&self, i: usize) -> Option<$t> { self.get(i) }
-            fn rank_(&self, c: $t, i: usize) -> Option<usize> { self.rank(c, i) }
-            fn select_(&self, c: $t, k: usize) -> Option<usize> { self.select(c, k) }
+            fn new_(v: &mut [$t]) -> Self { $alias(qwt::$alias::<$t>::new(v)) }
+            fn from_vec(v: Vec<$t>) -> Self { $alias(qwt::$alias::<$t>::from(v)) }
+            fn collect_(v: Vec<$t>) -> Self { $alias(v.into_iter().collect()) }
+            fn len_(&self) -> usize { self.0.len() }
+            fn is_empty_(&self) -> bool { self.0.is_empty() }
+            fn n_levels_(&self) -> usize { self.0.n_levels() }
             #[allow(unused_variables)]
-            fn rank_prefetch_(&self, c: $t, i: usize) -> Option<Option<usize>> { tree_pf!($kind, self, c, i) }
-            unsafe fn get_unchecked_(&self, i: usize) -> $t { self.get_unchecked(i) }
-            unsafe fn rank_unchecked_(&self, c: $t, i: usize) -> usize { self.rank_unchecked(c, i) }
-            unsafe fn select_unchecked_(&self, c: $t, k: usize) -> usize { self.select_unchecked(c, k) }
+            fn sigma_(&self) -> Option<Option<$t>> { let t = &self.0; tree_sigma!($kind, t) }
+            fn get_(&self, i: usize) -> Option<$t> { self.0.get(i) }
+            fn rank_(&self, c: $t, i: usize) -> Option<usize> { self.0.rank(c, i) }
+            fn select_(&self, c: $t, k: usize) -> Option<usize> { self.0.select(c, k) }
             #[allow(unused_variables)]
-            unsafe fn rank_prefetch_unchecked_(&self, c: $t, i: usize) -> Option<usize> { tree_pfu!($kind, self, c, i) }
-            fn iter_(&self) -> Box<dyn DeIter<$t> + '_> { Box::new(self.iter()) }
-            fn ref_into_iter_(&self) -> Box<dyn DeIter<$t> + '_> { Box::new(self.into_iter()) }
-            fn into_iter_(self) -> Box<dyn DeIter<$t>> { Box::new(self.into_iter()) }
+            fn rank_prefetch_(&self, c: $t, i: usize) -> Option<Option<usize>> { let t = &self.0; tree_pf!($kind, t, c, i) }
+            unsafe fn get_unchecked_(&self, i: usize) -> $t { self.0.get_unchecked(i) }
+            unsafe fn rank_unchecked_(&self, c: $t, i: usize) -> usize { self.0.rank_unchecked(c, i) }
+            unsafe fn select_unchecked_(&self, c: $t, k: usize) -> usize { self.0.select_unchecked(c, k) }
+            #[allow(unused_variables)]
+            unsafe fn rank_prefetch_unchecked_(&self, c: $t, i: usize) -> Option<usize> { let t = &self.0; tree_pfu!($kind, t, c, i) }
+            fn iter_(&self) -> Box<dyn DeIter<$t> + '_> { Box::new(self.0.iter()) }
+            fn ref_into_iter_(&self) -> Box<dyn DeIter<$t> + '_> { Box::new((&self.0).into_iter()) }
+            fn into_iter_(self) -> Box<dyn DeIter<$t>> { Box::new(self.0.into_iter()) }
         }
     )*};
 }
@@ -129,12 +158,12 @@ macro_rules! with_tree {
         macro_rules! __elem {
             ($a:ident) => {
                 match $elem {
-                    "u8" => $f::<qwt::$a<u8>>($($args),*),
-                    "u16" => $f::<qwt::$a<u16>>($($args),*),
-                    "u32" => $f::<qwt::$a<u32>>($($args),*),
-                    "u64" => $f::<qwt::$a<u64>>($($args),*),
-                    "usize" => $f::<qwt::$a<usize>>($($args),*),
-                    "u128" => $f::<qwt::$a<u128>>($($args),*),
+                    "u8" => $f::<$crate::trees::$a<u8>>($($args),*),
+                    "u16" => $f::<$crate::trees::$a<u16>>($($args),*),
+                    "u32" => $f::<$crate::trees::$a<u32>>($($args),*),
+                    "u64" => $f::<$crate::trees::$a<u64>>($($args),*),
+                    "usize" => $f::<$crate::trees::$a<usize>>($($args),*),
+                    "u128" => $f::<$crate::trees::$a<u128>>($($args),*),
                     e => panic!("unknown element type {e}"),
                 }
             };
